@@ -1,8 +1,13 @@
 """C07 - Hamming mode returns exactly the equal-length pairs within max_edits mismatches."""
+import contextlib
 import itertools
+import json
+import os
+import numpy as np
 import gens
-from gens import all_strings, repertoire, mutate
+from gens import all_strings, repertoire, mutate, canon_triplets, canon_model, diff_triplets
 from searchlib import Case, run_cases
+from core import call_impl, jsonable
 
 
 def ham_repertoire(rng, n):
@@ -25,14 +30,441 @@ def ham_repertoire(rng, n):
     return seqs
 
 
+
+# ----------------------------------------------------------------------------------------------------------------------------------
+# Widened families (coverage audit): every option, container, size, alphabet and call history the statement quantifies over.
+# A call is described by a JSON-able `spec` (stored in the replay inside the case description):
+#   engine  symdel | nearest_neighbor | hash_based | kdtree | SymdelDB (the object behind the two-collection form)
+#   k       max_edits
+#   opts    non-default options; 'inf' stands for float('inf'), 'n' for len(seqs) (a max_returns that cannot bind)
+#   cont / cont2  container kind of seqs / seqs2;  same: seqs2 is the very object passed as seqs
+#   form    'kw' (keywords) | 'pos' (every parameter positionally, in the documented order)
+CONTAINERS = ['list', 'tuple', 'list_npstr', 'ndarray_U', 'ndarray_object', 'series_default', 'series_shifted', 'series_reversed',
+              'series_string', 'series_equal_labels', 'series_string_dtype']
+POSITIONAL = {
+    'kdtree': ['max_returns', 'n_cpu', 'custom_distance', 'max_custom_distance', 'output_type', 'compression'],
+    'hash_based': ['max_returns', 'n_cpu', 'custom_distance', 'max_custom_distance', 'output_type', 'progress'],
+    'symdel': ['max_returns', 'n_cpu', 'custom_distance', 'max_custom_distance', 'output_type', 'seqs2', 'progress'],
+    'nearest_neighbor': ['max_returns', 'n_cpu', 'custom_distance', 'max_custom_distance', 'output_type', 'seqs2'],
+}
+DEFAULTS = dict(max_returns=None, n_cpu=1, max_custom_distance=float('inf'), output_type='triplets', compression=1, seqs2=None,
+                progress=False)
+
+
+def container(name, seqs):
+    import pandas as pd
+    n = len(seqs)
+    if name == 'list':
+        return list(seqs)
+    if name == 'tuple':
+        return tuple(seqs)
+    if name == 'list_npstr':
+        return [np.str_(s) for s in seqs]
+    if name == 'ndarray_U':
+        return np.array(list(seqs), dtype=str)
+    if name == 'ndarray_object':
+        a = np.empty(n, dtype=object)
+        a[:] = list(seqs)
+        return a
+    if name == 'series_default':
+        return pd.Series(list(seqs), dtype=object)
+    if name == 'series_shifted':
+        return pd.Series(list(seqs), index=range(7, 7 + n), dtype=object)
+    if name == 'series_reversed':
+        return pd.Series(list(seqs), index=range(n - 1, -1, -1), dtype=object)
+    if name == 'series_string':
+        return pd.Series(list(seqs), index=['r%d' % (n - i) for i in range(n)], dtype=object)
+    if name == 'series_equal_labels':
+        return pd.Series(list(seqs), index=[0] * n, dtype=object)
+    if name == 'series_string_dtype':
+        return pd.Series(list(seqs), dtype='string')
+    raise ValueError(name)
+
+
+def invoke(nn, spec, seqs, seqs2=None):
+    """One Hamming-mode call as described by spec; the result as (query position, reference position, d) triplets whatever the
+    output format (coo_matrix keeps explicit zeros, so every triplet is recovered; 'ndarray' only where no d = 0 pair is expected)."""
+    eng, k = spec['engine'], spec['k']
+    a = container(spec.get('cont', 'list'), seqs)
+    b = None
+    if seqs2 is not None:
+        b = a if spec.get('same') else container(spec.get('cont2', 'list'), seqs2)
+    opts = {key: (float('inf') if v == 'inf' else len(seqs) if v == 'n' else v) for key, v in spec.get('opts', {}).items()}
+    ot = opts.get('output_type', 'triplets')
+    with open(os.devnull, 'w') as dn, contextlib.redirect_stderr(dn):       # progress=True draws a bar on stderr
+        if eng == 'SymdelDB':
+            res = nn.SymdelDB(a, k).lookup(b, custom_distance='hamming', **opts)
+        elif spec.get('form') == 'pos':
+            full = dict(DEFAULTS)
+            full.update(opts)
+            full.update(custom_distance='hamming', seqs2=b)
+            res = getattr(nn, eng)(a, k, *[full[p] for p in POSITIONAL[eng]])
+        else:
+            kw = dict(opts)
+            if b is not None:
+                kw['seqs2'] = b
+            res = getattr(nn, eng)(a, max_edits=k, custom_distance='hamming', **kw)
+    if ot == 'triplets':
+        return res
+    shape = (len(seqs), len(seqs2) if seqs2 is not None else len(seqs))
+    if ot == 'coo_matrix':
+        assert res.shape == shape, 'matrix shape %s, expected %s' % (res.shape, shape)
+        return list(zip(res.col.tolist(), res.row.tolist(), res.data.tolist()))
+    m = np.asarray(res)
+    assert m.shape == shape, 'matrix shape %s, expected %s' % (m.shape, shape)
+    rr, cc = np.nonzero(m)
+    return [(int(c), int(r), m[r, c]) for r, c in zip(rr, cc)]
+
+
+def spec_case(nn, family, spec, seqs, seqs2=None):
+    spec = dict(spec)
+    two = seqs2 is not None
+    if spec.get('same'):
+        seqs2 = seqs
+    model = 'api_brute_cross_ham' if two else 'api_brute_self_ham'
+
+    def remake(ss):
+        # two collections: the references shrink, the queries stay (the very same object again where spec says so)
+        qq = None if not two else list(ss) if spec.get('same') else list(seqs2)
+        return (lambda: invoke(nn, spec, list(ss), qq)), (model, [spec['k'], list(ss)] + ([qq] if two else []))
+    site = 'nn.%s[hamming,%s]' % (spec['engine'], family)
+    desc = '%s[hamming] %s k=%d n=%d spec=%s' % (spec['engine'], family, spec['k'], len(seqs), json.dumps(spec, sort_keys=True))
+    th, rq = remake(seqs)
+    return Case(desc, th, rq, seqs=list(seqs), seqs2=list(seqs2) if two else None, site=site, remake=remake)
+
+
+def random_opts(rng, eng, k, light=False):
+    """1-3 non-default options that must not change the Hamming result: a custom radius that cannot bind (>= max_edits; the
+    statement fixes the radius to max_edits), a max_returns that cannot bind, more workers, a coarser histogram, a progress bar."""
+    pool = ['max_custom_distance', 'max_custom_distance']
+    if eng != 'SymdelDB':
+        pool += ['max_returns', 'n_cpu']
+    if eng == 'kdtree':
+        pool += ['compression', 'compression']
+    if eng in ('hash_based', 'symdel', 'SymdelDB'):
+        pool += ['progress']
+    opts = {}
+    for name in rng.sample(pool, rng.choice([1, 1, 2, 2, 3])):
+        if name == 'max_custom_distance':
+            opts[name] = rng.choice([k, float(k), k + 0.5, k + 1, 10 ** 9, 'inf', 1e300])
+        elif name == 'max_returns':
+            opts[name] = 'n'
+        elif name == 'n_cpu':
+            opts[name] = rng.choice([2, 2, 3]) if not (eng == 'kdtree' and light) else 1
+        elif name == 'compression':
+            opts[name] = rng.choice([2, 3, 5, 7, 19, 20, 25])
+        elif name == 'progress':
+            opts[name] = True
+    if opts.get('n_cpu') == 1:
+        del opts['n_cpu']
+    return opts
+
+
+def ham_family(rng, n, alphabet=gens.AA, lens=(1, 12), maxsub=3, p_empty=0.0):
+    """Like ham_repertoire over any alphabet / length range; optionally with empty strings."""
+    seqs = []
+    while len(seqs) < n:
+        L = rng.randint(*lens)
+        root = ''.join(rng.choice(alphabet) for _ in range(L))
+        for _ in range(rng.randint(1, 5)):
+            s = list(root)
+            for _ in range(rng.randint(0, maxsub)):
+                if L:
+                    s[rng.randrange(L)] = rng.choice(alphabet)
+            seqs.append(''.join(s))
+        if rng.random() < 0.5:
+            seqs.append(root[:-1] if L > 1 else root + alphabet[0])
+        if rng.random() < 0.3:
+            seqs.append(rng.choice(seqs))
+        if rng.random() < p_empty:
+            seqs.append('')
+    seqs = seqs[:n]
+    rng.shuffle(seqs)
+    return seqs
+
+
+def long_family(rng, L, alphabet=gens.AA):
+    """Sequences of length about L (rapidfuzz / NumPy switch representation at 64, 128, 256): substitution variants at the ends and
+    in the middle, a rotation (small Levenshtein, large Hamming distance), one-indel variants (other length class), a duplicate.
+    With a two-letter alphabet the residue counts themselves pass 127 / 255."""
+    root = ''.join(rng.choice(alphabet) for _ in range(L))
+
+    def sub(s, pos):
+        s = list(s)
+        for p in pos:
+            s[p] = rng.choice([c for c in alphabet if c != s[p]])
+        return ''.join(s)
+    seqs = [root, root, sub(root, [0]), sub(root, [L - 1]), sub(root, [0, L - 1]), sub(root, rng.sample(range(L), 3)),
+            sub(root, rng.sample(range(L), 4)), root[1:] + root[0], root[1:], root + rng.choice(alphabet),
+            root[:L // 2] + rng.choice(alphabet) + root[L // 2:], ''.join(rng.choice(alphabet) for _ in range(L))]
+    other = ''.join(rng.choice(alphabet) for _ in range(L + 1))
+    seqs += [other, sub(other, [L]), sub(other, [L // 2, L])]
+    rng.shuffle(seqs)
+    return seqs
+
+
+def shaped(rng, kind):
+    """Collections of a particular shape of the length classes."""
+    A3 = 'ACD'
+    if kind == 'single':
+        return [''.join(rng.choice(gens.AA) for _ in range(rng.randint(1, 12)))]
+    if kind == 'pair':
+        s = ''.join(rng.choice(gens.AA) for _ in range(rng.randint(1, 8)))
+        return [s, rng.choice([s, mutate(rng, s, gens.AA, 1), s[:-1] + rng.choice(gens.AA), s + 'A'])]
+    if kind == 'one_length':
+        L = rng.randint(1, 6)
+        return [''.join(rng.choice(A3) for _ in range(L)) for _ in range(rng.randint(2, 60))]
+    if kind == 'distinct_lengths':
+        ls = list(range(1, rng.randint(2, 14)))
+        rng.shuffle(ls)
+        return [''.join(rng.choice(A3) for _ in range(L)) for L in ls]
+    if kind == 'alternating':
+        L = rng.randint(1, 5)
+        return [''.join(rng.choice(A3) for _ in range(L + (i % 2))) for i in range(rng.randint(3, 40))]
+    if kind in ('ascending', 'descending'):
+        seqs = [''.join(rng.choice(A3) for _ in range(rng.randint(1, 5))) for _ in range(rng.randint(3, 40))]
+        return sorted(seqs, key=len, reverse=(kind == 'descending'))
+    if kind == 'all_identical':
+        return [''.join(rng.choice(gens.AA) for _ in range(rng.randint(1, 9)))] * rng.randint(2, 30)
+    if kind == 'with_empty':
+        seqs = ham_family(rng, rng.randint(2, 25), alphabet=A3, lens=(0, 4), p_empty=0.6) + ['']
+        rng.shuffle(seqs)
+        return seqs
+    raise ValueError(kind)
+
+
+SHAPES = ['single', 'pair', 'one_length', 'distinct_lengths', 'alternating', 'ascending', 'descending', 'all_identical', 'with_empty']
+FREE_ALPHABETS = ['acdxyz', 'ACac', 'AC*-_ .', '0123456789', 'AXBZJOU', 'AéÉα日本', 'AC\U0001F600\U00010348']
+
+
+def widened_cases(ctx, nn):
+    rng = ctx.rng
+    q = ctx.quick
+    cases = []
+    engines = ['symdel', 'kdtree', 'hash_based', 'nearest_neighbor']
+
+    def add(family, spec, seqs, seqs2=None):
+        ctx.count('family=' + family)
+        for key, v in spec.get('opts', {}).items():
+            ctx.count('opt:%s' % key if key != 'output_type' else 'opt:output_type=%s' % v)
+        if spec.get('cont', 'list') != 'list':
+            ctx.count('container=' + spec['cont'])
+        if spec.get('form') == 'pos':
+            ctx.count('positional_call')
+        cases.append(spec_case(nn, family, spec, seqs, seqs2))
+
+    # (c) options that must not change the answer, alone and combined, on every container, keyword and positional calls
+    for t in range(120 if q else 2400):
+        eng = engines[t % 4]
+        k = rng.choice([1, 1, 2, 3]) if eng != 'hash_based' else rng.choice([1, 1, 2])
+        seqs = ham_repertoire(rng, rng.randint(2, 40 if eng != 'hash_based' or k == 1 else 20))
+        spec = dict(engine=eng, k=k, opts=random_opts(rng, eng, k, light=(t % 16 >= 8)), cont=rng.choice(CONTAINERS),
+                    form=rng.choice(['kw', 'kw', 'pos']))
+        add('options', spec, seqs)
+    # (d) shapes of the length classes and sizes 1, 2; the empty string is a sequence of length 0
+    for t in range(72 if q else 1800):
+        kind = SHAPES[t % len(SHAPES)]
+        eng = engines[(t // len(SHAPES)) % 4]
+        seqs = shaped(rng, kind)
+        k = rng.choice([1, 2, 3]) if eng != 'hash_based' else rng.choice([1, 2])
+        spec = dict(engine=eng, k=k, opts={}, cont=rng.choice(['list', 'list', 'ndarray_U', 'series_reversed']))
+        if eng == 'kdtree' and t % 3 == 0:
+            spec['opts'] = dict(n_cpu=2)
+        add('shape:' + kind, spec, seqs)
+    # (e) max_edits beyond 3 (and beyond the sequence lengths); hash_based with max_edits = 3 on very short sequences
+    for t in range(12 if q else 300):
+        eng = ['symdel', 'kdtree', 'nearest_neighbor'][t % 3]
+        k = rng.randint(4, 8)
+        seqs = ham_family(rng, rng.randint(2, 25), alphabet=rng.choice([gens.AA, 'ACD']), lens=(1, rng.choice([4, 9, 12])), maxsub=k + 1)
+        add('large_max_edits', dict(engine=eng, k=k, opts={}), seqs)
+    for t in range(2 if q else 30):
+        seqs = ham_family(rng, rng.randint(2, 7), lens=(1, 2), maxsub=2) + [''.join(rng.choice('ACDY') for _ in range(3)) for _ in range(2)]
+        add('large_max_edits', dict(engine='hash_based', k=3, opts={}), seqs)
+    # (f) long sequences on both sides of 64, 128, 256
+    for t, L in enumerate([63, 64, 65, 127, 128, 129, 255, 256, 257] if q else [63, 64, 65, 127, 128, 129, 255, 256, 257, 300, 511, 512, 513] * 3):
+        low = L > 100 and rng.random() < 0.5
+        seqs = long_family(rng, L, alphabet=rng.choice(['AC', 'AAAC', 'GGGGGGGA']) if low else gens.AA)
+        if low:
+            ctx.count('long_low_complexity')
+        for eng in (['symdel', 'kdtree', 'hash_based', 'nearest_neighbor'][t % 4], 'kdtree'):
+            k = rng.choice([1, 2, 3, 4]) if eng == 'kdtree' else 1 if eng == 'hash_based' or L > 130 else rng.choice([1, 2])
+            add('long_sequences', dict(engine=eng, k=k, opts={}, cont=rng.choice(['list', 'ndarray_U'])), seqs)
+    # (g) large collections (chunks of the worker pool, big length classes)
+    for t in range(3 if q else 12):
+        n = rng.randint(250, 400) if q else rng.randint(600, 1000)
+        seqs = ham_family(rng, n, alphabet='ACDE', lens=(3, 7), maxsub=2)
+        eng = ['kdtree', 'symdel', 'hash_based'][t % 3]
+        add('large_collection', dict(engine=eng, k=1 if eng == 'hash_based' else rng.choice([1, 2]),
+                                     opts=dict(n_cpu=rng.choice([2, 3])) if eng == 'kdtree' else {}), seqs)
+    # (h) symbols outside the amino-acid alphabet (lower case, digits, punctuation, non-ASCII): the default engine takes any string
+    for t in range(14 if q else 300):
+        alpha = FREE_ALPHABETS[t % len(FREE_ALPHABETS)]
+        seqs = ham_family(rng, rng.randint(2, 30), alphabet=alpha, lens=(1, 8))
+        eng = ['symdel', 'nearest_neighbor'][t % 2]
+        spec = dict(engine=eng, k=rng.choice([1, 2, 3]), opts={}, cont=rng.choice(['list', 'ndarray_U', 'series_string']))
+        if t % 3 == 0:
+            h = rng.randint(1, len(seqs) - 1)
+            add('free_alphabet', spec, seqs[:h], seqs[h:] + [seqs[0]])
+        else:
+            add('free_alphabet', spec, seqs)
+    # (i) two-collection form: nearest_neighbor / symdel / the SymdelDB object behind them; max_edits 1..4; options; containers on both
+    #     sides; the same object on both sides; no queries; references of one length
+    for t in range(60 if q else 1500):
+        eng = ['symdel', 'nearest_neighbor', 'SymdelDB', 'nearest_neighbor'][t % 4]
+        k = rng.choice([1, 2, 3, 4])
+        pool = ham_repertoire(rng, rng.randint(3, 40))
+        h = rng.randint(1, len(pool) - 1)
+        refs, qs = pool[:h], pool[h:] + rng.sample(pool[:h], rng.randint(0, min(3, h)))
+        spec = dict(engine=eng, k=k, opts=random_opts(rng, eng, k) if t % 2 else {}, cont=rng.choice(CONTAINERS), cont2=rng.choice(CONTAINERS),
+                    form='pos' if eng != 'SymdelDB' and t % 5 == 0 else 'kw')
+        variant = t % 10
+        if variant == 3:
+            spec['same'] = True
+            qs = refs
+            ctx.count('two_collection_same_object')
+        elif variant == 6:
+            qs, spec['cont2'] = [], rng.choice(['list', 'tuple'])
+            ctx.count('two_collection_no_queries')
+        elif variant == 8:
+            L = len(refs[0])
+            refs = [s for s in pool if len(s) == L]
+            qs = pool
+            ctx.count('two_collection_references_of_one_length')
+        add('two_collections', spec, refs, qs)
+    # (j) matrix outputs carry the same pairs (coo_matrix keeps d = 0 entries explicitly; 'ndarray' on collections without repeats)
+    for t in range(32 if q else 800):
+        eng = engines[t % 4]
+        k = rng.choice([1, 2]) if eng == 'hash_based' else rng.choice([1, 2, 3])
+        seqs = ham_repertoire(rng, rng.randint(2, 30 if eng != 'hash_based' else 15))
+        ot = ['coo_matrix', 'ndarray'][(t // 4) % 2]
+        if ot == 'ndarray':
+            seqs = list(dict.fromkeys(seqs))
+        spec = dict(engine=eng, k=k, opts=dict(output_type=ot), cont=rng.choice(['list', 'series_shifted', 'ndarray_object']))
+        if t % 8 == 7:
+            spec['opts']['n_cpu'] = 2
+        if eng in ('symdel', 'nearest_neighbor') and ot == 'coo_matrix' and t % 3 == 0 and len(seqs) > 2:
+            h = rng.randint(1, len(seqs) - 1)
+            add('matrix_output', spec, seqs[:h], seqs[h:] + [seqs[0]])
+        else:
+            add('matrix_output', spec, seqs)
+    return cases
+
+
+def history(rng, quick):
+    """Calls that share module-level state and one caller-owned buffer (list or ndarray) refilled in place between calls:
+    engines, modes (Hamming / default), max_edits and worker counts alternate; a step may repeat the previous arguments."""
+    n = rng.randint(3, 22)
+    cur = ham_repertoire(rng, n)
+    steps = []
+    for s in range(rng.randint(3, 6)):
+        r = rng.random()
+        if s and r < 0.6:
+            cur = list(cur)
+            for _ in range(rng.randint(1, max(1, n // 2))):
+                i = rng.randrange(n)
+                cur[i] = rng.choice([cur[rng.randrange(n)], mutate(rng, cur[i], gens.AA, 1) or 'A',
+                                     ''.join(rng.choice(gens.AA) for _ in range(rng.randint(1, 12)))])
+        elif s and r < 0.75:
+            cur = list(cur)
+            rng.shuffle(cur)
+        eng = rng.choice(['symdel', 'kdtree', 'hash_based', 'nearest_neighbor', 'kdtree'])
+        ham = rng.random() < 0.7
+        k = rng.choice([1, 2, 3])
+        if eng == 'hash_based':
+            k = min(k, 2 if ham and n <= 15 else 1)
+        opts = {}
+        if eng == 'kdtree' and rng.random() < 0.3:
+            opts['n_cpu'] = 2
+        if eng == 'kdtree' and rng.random() < 0.3:
+            opts['compression'] = rng.choice([2, 5])
+        steps.append(dict(engine=eng, hamming=ham, k=k, opts=opts, seqs=list(cur)))
+    if not any(st['hamming'] for st in steps):
+        steps[-1]['hamming'] = True
+    return dict(buffer=rng.choice(['list', 'ndarray_object']), steps=steps)
+
+
+def run_histories(ctx, nn, hists):
+    reqs = [('api_brute_self_ham', [st['k'], st['seqs']]) for h in hists for st in h['steps'] if st['hamming']]
+    outs = iter(ctx.oracle.run_parallel(reqs))
+    for h in hists:
+        buf = container(h['buffer'], h['steps'][0]['seqs'])
+        for n, st in enumerate(h['steps']):
+            buf[:] = st['seqs']                       # the caller's object, refilled in place
+            fn = getattr(nn, st['engine'])
+            if not st['hamming']:
+                call_impl(lambda: fn(buf, max_edits=st['k'], **st['opts']))     # only there to leave its traces; not compared here
+                continue
+            exp = next(outs)
+            if isinstance(exp, Exception):
+                raise exp
+            exp = canon_model(exp)
+            g = call_impl(lambda: fn(buf, max_edits=st['k'], custom_distance='hamming', **st['opts']))
+            ctx.count('history_step')
+            ctx.case(nontrivial_key=('history', n, st['engine'], st['k'], tuple(st['seqs'])) if exp and n else None)
+            try:
+                ok = g[0] == 'ok' and canon_triplets(g[1]) == exp
+            except Exception:
+                ok = False
+            if not ok:
+                detail = g if g[0] != 'ok' else diff_triplets(canon_triplets(g[1]), exp)
+                ctx.violation('property', 'step %d of a call history on one %s refilled in place: %s(%s, max_edits=%d, custom_distance=hamming%s) '
+                              'differs from the proved model: %s; earlier steps: %s' %
+                              (n, h['buffer'], st['engine'], st['seqs'], st['k'], ''.join(', %s=%s' % kv for kv in sorted(st['opts'].items())),
+                               jsonable(detail), [(x['engine'], 'hamming' if x['hamming'] else 'default', x['k'], x['opts']) for x in h['steps'][:n]]),
+                              dict(case='history', history=h, step=n, detail=jsonable(detail)), site='nn.%s[hamming,history]' % st['engine'])
+                return
+
+
+
+def pending_generator_case(nn, spec, refs, qs):
+    eng, k = spec['engine'], spec['k']
+    return Case('%s[hamming] pending k=%d spec=%s' % (eng, k, json.dumps(spec, sort_keys=True)),
+                (lambda: getattr(nn, eng)(list(refs), max_edits=k, custom_distance='hamming', seqs2=(x for x in list(qs)))),
+                ('api_brute_cross_ham', [k, list(refs), list(qs)]), seqs=list(refs), seqs2=list(qs), site='nn.%s[hamming,pending]' % eng)
+
+
+def radius_below_max_edits_cases(ctx, nn):
+    """max_custom_distance is the radius of a caller-supplied distance; in Hamming mode it does not cut the answer, whatever its
+    value (D21: hash_based applied it to the Hamming value; repaired in /repo by ac40883)."""
+    rng = ctx.rng
+    cases = []
+    for t in range(6 if ctx.quick else 60):
+        seqs = ham_repertoire(rng, rng.randint(3, 20))
+        ctx.count('max_custom_distance_below_max_edits')
+        cases.append(spec_case(nn, 'radius_below_max_edits', dict(engine=['hash_based', 'symdel', 'kdtree', 'nearest_neighbor'][t % 4], k=2,
+                                                                   opts=dict(max_custom_distance=rng.choice([0, 1, 1.5]))), seqs))
+    return cases
+
+
+def pending_cases(ctx, nn):
+    """Only with PV_PENDING_C07 set: inputs on which the unchanged library departs from the statement as read literally
+    (NOTES.md, POSSIBLE DEFECT); kept out of the default run."""
+    rng = ctx.rng
+    cases = []
+    for t in range(6):
+        seqs = ham_repertoire(rng, rng.randint(3, 20))
+        # 2. seqs2 given as a one-shot iterator: consumed by the input validation, the search then sees no query
+        h = rng.randint(1, len(seqs) - 1)
+        ctx.count('pending:seqs2_generator')
+        cases.append(pending_generator_case(nn, dict(engine=['symdel', 'nearest_neighbor'][t % 2], k=1, pending='seqs2_generator'),
+                                            seqs[:h], seqs[h:] + [seqs[0]]))
+    return cases
+
 def run(ctx):
     import pyrepseq.nn as nn
     rng = ctx.rng
     ctx.rule = ('(a) all strings of length 1..L over {A,C} in one call under random orderings (every interleaving of length classes '
                 'for small lists), k = 1..3, engines symdel / nearest_neighbor / hash_based / kdtree and two-collection symdel; '
                 '(b) random mixed-length repertoires with equal-length neighbours separated by other lengths and one-indel pairs. '
-                'non-trivial := at least two length classes are interleaved and a reported pair has a position that differs from its '
-                'position inside its own length class')
+                '(c)-(j) widened families: options that must not change the answer (max_custom_distance >= max_edits, a max_returns that '
+                'cannot bind, n_cpu, compression, progress) alone and combined, keyword and positional calls, eleven container kinds; '
+                'shapes of the length classes (one sequence, two, one length, all lengths distinct, alternating, sorted, all identical, '
+                'empty strings); max_edits 4..8 and hash_based max_edits = 3; lengths around 64 / 128 / 256; collections of several '
+                'hundred sequences; symbols outside the amino-acid alphabet for the default engine; two-collection form through '
+                'symdel / nearest_neighbor / SymdelDB with options, containers, the same object on both sides, no queries; matrix '
+                'outputs; (k) call histories on one caller-owned buffer refilled in place, alternating engines, modes and max_edits. '
+                'non-trivial := (a),(b): at least two length classes are interleaved and a reported pair has a position that differs from '
+                'its position inside its own length class; widened families: a non-empty expected result')
     cases = []
 
     def nontriv_for(seqs):
@@ -102,14 +534,37 @@ def run(ctx):
         cases.append(Case('symdel[hamming,seqs2] k=%d' % k,
                           (lambda refs=refs, qs=qs, k=k: nn.symdel(refs, max_edits=k, custom_distance='hamming', seqs2=qs)),
                           ('api_brute_cross_ham', [k, refs, qs]), seqs=refs, seqs2=qs, site='nn.symdel[hamming,seqs2]'))
+    cases += widened_cases(ctx, nn)
+    cases += radius_below_max_edits_cases(ctx, nn)
+    if os.environ.get('PV_PENDING_C07'):
+        cases += pending_cases(ctx, nn)
     run_cases(ctx, cases, vm_every=17)
+    # (k) call histories
+    run_histories(ctx, nn, [history(rng, ctx.quick) for _ in range(25 if ctx.quick else 400)])
     ctx.assumptions += ['rapidfuzz Hamming.distance on equal-length strings', 'scipy KDTree ball query contract']
 
 
 def replay(ctx, obj):
     import pyrepseq.nn as nn
     r = obj['replay']
+    if r.get('case') == 'history':
+        run_histories(ctx, nn, [r['history']])
+        return
+    if 'spec=' in (r.get('case') or ''):
+        # widened families: the case description carries every option of the call
+        spec = json.loads(r['case'].split('spec=', 1)[1])
+        family = (obj.get('site') or ',replay]').split(',', 1)[1].rstrip(']')
+        if spec.get('pending') == 'seqs2_generator':
+            run_cases(ctx, [pending_generator_case(nn, spec, r['seqs'], r['seqs2'])])
+        else:
+            run_cases(ctx, [spec_case(nn, family, spec, r['seqs'], r.get('seqs2'))])
+        return
     seqs, k = r['seqs'], r['request'][1][0]
+    if r.get('seqs2') is not None:
+        qs = r['seqs2']
+        run_cases(ctx, [Case('replay', lambda: nn.symdel(list(seqs), max_edits=k, custom_distance='hamming', seqs2=list(qs)),
+                             ('api_brute_cross_ham', [k, seqs, qs]), seqs=seqs, seqs2=qs, site=obj.get('site'))])
+        return
     eng = (obj.get('site') or 'nn.kdtree[hamming]').split('.')[1].split('[')[0]
     fn = getattr(nn, eng, nn.kdtree)
     kw = dict(n_cpu=int((obj.get('site') or '').split('n_cpu=')[1].rstrip(']'))) if 'n_cpu=' in (obj.get('site') or '') else {}
